@@ -83,9 +83,10 @@ STUB_HANDLE = STUB_SER + STUB_FMT + [
     "alloc::string::String::from_utf8_lossy -> empty string (only used to fill the SerdeJsonDe error text)",
     "std::hash::RandomState::new -> fixed keys (empty HashMap only)",
     "<serde_json::Value as Clone>::clone -> shallow clone of scalar values (compound values are a reported failure)",
-    "varlink::VarlinkService::call (private table lookup) -> dispatch model: built-in interface = real code, "
-    "'a.b' = scripted method implementation, anything else = reply_interface_not_found; the real function is "
-    "verified by the C03 harnesses",
+    "varlink::Call::reply_interface_not_found -> model that checks its argument and writes one tagged reply (the real "
+    "function is a C04 reply path)",
+    "varlink::VarlinkService::call (private table lookup + dispatch) -> model that records the interface name and "
+    "runs a scripted method implementation; the real function is verified by the C03 harnesses",
 ]
 
 # per-loop unwind bounds for the handle-level harnesses (default bound: the harness's
@@ -99,8 +100,6 @@ VALUE_CUTS = [("rec:drop_glue::<serde_json::Value>$", 1),
               ("rec:drop_glue::<.*Vec<serde_json::Value", 1),
               ("rec:drop_glue::<.*btree.*serde_json::Value", 1),
               (r"collections::btree::", 2)]
-HANDLE_LOOPS = [("=memcmp.0", 46), (r"memchr::memrchr", 46), (r"tagser::key_eq", 21), (r"tagser::pack", 10),
-                (r"nde::string_of", 10)] + VALUE_CUTS
 
 HANDLE_FUNCS = ["<varlink::VarlinkService as varlink::ConnectionHandler>::handle", "varlink::Call::new",
                 "<varlink::VarlinkService as varlink::Interface>::call", "varlink::Call::reply_struct",
@@ -109,40 +108,269 @@ HANDLE_FUNCS = ["<varlink::VarlinkService as varlink::ConnectionHandler>::handle
                 "derive(Deserialize) for varlink::Request", "std::io::BufReader (real, small capacity)"]
 
 
-def handle_h(name, k, tiers, timeout):
+HANDLE_LOOPS = [("=memcmp.0", 12), (r"memchr::memrchr", 8), (r"tagser::key_eq", 12), (r"tagser::pack", 10)] + VALUE_CUTS
+
+
+def handle_h(name, k, what, tiers, timeout=(1500, 3600)):
     return H(name, mod="verif_lib::c01", tiers=tiers, timeout=timeout, functions=HANDLE_FUNCS,
-             symbolic="per message: parse ok/error, more/oneway/upgrade in {absent,false,true}, target in 7 kinds, "
-                      "parameters kind, method-implementation script of <= 2 ops out of 6",
-             bounds="%d pipelined message(s), concrete framing, 4-byte BufReader (refilled mid-stream); parameters "
-                    "null/non-null per message fixed by the _p<mask> suffix, position of the unparsable message by "
-                    "_f<i> (f9 = none); unwind 8 (46 for string compares)" % k,
-             stubs=STUB_HANDLE, loop_rules=HANDLE_LOOPS)
+             symbolic="per dispatched message: number of replies the implementation writes (0..2) and its outcome "
+                      "(Ok / Err / upgrade)",
+             bounds="%d pipelined message(s) %s; concrete framing ('m' NUL per message, 1-byte incomplete tail for "
+                    "k <= 2), 4-byte BufReader (refilled mid-stream); unwind 8" % (k, what),
+             stubs=STUB_HANDLE, loop_rules=HANDLE_LOOPS, witness="search")
 
 
 CHECKS["C01"] = {
     "design_ref": "3/C01",
     "harnesses": [
-        handle_h("c01_stream_k1_p0_f9", 1, ("quick", "thorough"), (1500, 3600)),
-        handle_h("c01_stream_k1_p1_f9", 1, ("quick", "thorough"), (1500, 3600)),
-        handle_h("c01_stream_k1_p0_f0", 1, ("quick", "thorough"), (1500, 3600)),
-        handle_h("c01_stream_k2_p0_f9", 2, ("quick", "thorough"), (2400, 7200)),
-        handle_h("c01_stream_k2_p1_f9", 2, ("thorough",), (2400, 7200)),
-        handle_h("c01_stream_k2_p2_f9", 2, ("thorough",), (2400, 7200)),
-        handle_h("c01_stream_k2_p3_f9", 2, ("quick", "thorough"), (2400, 7200)),
-        handle_h("c01_stream_k2_p0_f1", 2, ("quick", "thorough"), (2400, 7200)),
-        handle_h("c01_stream_k2_p1_f1", 2, ("thorough",), (2400, 7200)),
-        handle_h("c01_stream_k3_p0_f9", 3, ("thorough",), (3600, 14400)),
-        handle_h("c01_stream_k3_p2_f9", 3, ("thorough",), (3600, 14400)),
-        handle_h("c01_stream_k3_p5_f9", 3, ("thorough",), (3600, 14400)),
-        handle_h("c01_stream_k3_p7_f9", 3, ("thorough",), (3600, 14400)),
-        handle_h("c01_stream_k3_p3_f2", 3, ("thorough",), (3600, 14400)),
+        handle_h("c01_k1_d", 1, "[dispatched]", ("quick", "thorough")),
+        handle_h("c01_k1_n", 1, "[method without dot]", ("quick", "thorough")),
+        handle_h("c01_k1_e", 1, "[empty method]", ("thorough",)),
+        handle_h("c01_k1_d_flags", 1, "[dispatched, request carrying more=true, oneway=false]", ("quick", "thorough")),
+        handle_h("c01_k2_dd", 2, "[dispatched, dispatched]", ("quick", "thorough")),
+        handle_h("c01_k2_nd", 2, "[no dot, dispatched]", ("quick", "thorough")),
+        handle_h("c01_k2_dn", 2, "[dispatched, no dot]", ("quick", "thorough")),
+        handle_h("c01_k2_ed", 2, "[empty method, dispatched]", ("thorough",)),
+        handle_h("c01_k2_nn", 2, "[no dot, no dot]", ("thorough",)),
+        handle_h("c01_k3_ddd", 3, "[dispatched x3]", ("quick", "thorough")),
+        handle_h("c01_k3_dnd", 3, "[dispatched, no dot, dispatched]", ("thorough",)),
     ],
     "assumptions": [
+        "compositional: handle() is checked against a model of the private VarlinkService::call (checks the interface "
+        "name and the request it is given, writes 0..2 replies, returns Ok / Err / upgrade); VarlinkService::call and "
+        "the built-in interface are checked against their own contracts by the C03 harnesses, the reply writers by "
+        "C04 / C05",
+        "constants of each harness instance (enumerated, not solver-chosen): number of messages, which loop path each "
+        "method name selects, the request flags. Reason: any symbolic input to the derived Deserialize visitor makes "
+        "CBMC merge Ok/Err results, after which it cannot fold enum discriminants and executes drop glue of garbage "
+        "serde_json::Value objects (DESIGN section 2, probes s0-s2)",
         "framing is concrete (message boundaries at fixed offsets): symbolic message lengths through BufReader/Vec are "
-        "beyond CBMC (probe: 4 symbolic bytes, no verdict in 18 min / 18 GB); message CONTENT is symbolic through the "
-        "scripted parser",
+        "beyond CBMC (probe: 4 symbolic bytes, no verdict in 18 min / 18 GB)",
         "for Option members of Request an absent member and a null member are the same (serde_derive semantics)",
         "more than 3 messages per handle() call: the loop carries no state between iterations other than the reader",
         "in-memory reader/writer never fail",
+    ],
+}
+
+STUB_SERDE_MODEL = [
+    "serde_json text/bytes layer -> recording serializer + scripted deserializer at the serde data-model level: the "
+    "real Serialize / Deserialize impls of /repo run; serde_json's own formatting and tokenizing do not",
+]
+
+
+def c17_h(name, what, bounds, tiers=("quick", "thorough"), timeout=(900, 3600), extra_stubs=()):
+    return H(name, mod="verif_lib::c17", tiers=tiers, timeout=timeout,
+             functions=[what], symbolic=bounds, bounds=bounds + "; unwind 12",
+             stubs=STUB_SERDE_MODEL + STUB_FMT + list(extra_stubs))
+
+
+HASH_STUBS = ["std::hash::RandomState::new -> fixed keys",
+              "<DefaultHasher as Hasher>::{write,write_str,finish} -> constant hash (any hash function preserves "
+              "HashSet semantics; SipHash on symbolic data does not finish)"]
+
+CHECKS["C17"] = {
+    "design_ref": "3/C17",
+    "harnesses": [
+        c17_h("c17_request_p0", "derive(Serialize, Deserialize) for varlink::Request",
+              "flags in {unset,false,true}, method <= 3 printable ASCII bytes, parameters absent"),
+        c17_h("c17_request_p1", "derive(Serialize, Deserialize) for varlink::Request",
+              "flags in {unset,false,true}, method <= 3 printable ASCII bytes, parameters null"),
+        c17_h("c17_request_p2", "derive(Serialize, Deserialize) for varlink::Request",
+              "flags in {unset,false,true}, method <= 3 printable ASCII bytes, parameters true"),
+        c17_h("c17_reply_p0", "derive(Serialize, Deserialize) for varlink::Reply",
+              "continues in {unset,false,true}, error unset or <= 3 bytes, parameters absent"),
+        c17_h("c17_reply_p1", "derive(Serialize, Deserialize) for varlink::Reply",
+              "continues in {unset,false,true}, error unset or <= 3 bytes, parameters null"),
+        c17_h("c17_reply_p2", "derive(Serialize, Deserialize) for varlink::Reply",
+              "continues in {unset,false,true}, error unset or <= 3 bytes, parameters true"),
+        c17_h("c17_serviceinfo", "derive(Serialize, Deserialize) for varlink::ServiceInfo",
+              "four strings <= 3 bytes, 0..2 interfaces"),
+        c17_h("c17_description_reply", "derive(Serialize, Deserialize) for varlink::GetInterfaceDescriptionReply",
+              "description unset or <= 3 bytes"),
+        c17_h("c17_stringset_deserialize", "<varlink::StringHashSet as Deserialize>::deserialize (hand-written visitor)",
+              "object with any subset of the members a, b, each an empty object; strict MapAccess protocol",
+              timeout=(1800, 3600), extra_stubs=HASH_STUBS),
+        c17_h("c17_stringset_serialize", "<varlink::StringHashSet as Serialize>::serialize (hand-written)",
+              "set with 0 or 1 element", timeout=(1800, 3600), extra_stubs=HASH_STUBS),
+    ],
+    "assumptions": [
+        "the three deserialization entry points differ only in how strictly they enforce serde's MapAccess protocol; "
+        "the strict one (text, bytes) is modelled; from_value is the lenient one and accepts whatever the strict one accepts",
+        "serde_json's own escaping / number formatting / tokenizing (third-party) is outside the claim",
+        "string contents: printable ASCII without characters that need JSON escaping",
+    ],
+}
+
+CHECKS["C05"] = {
+    "design_ref": "3/C05",
+    "harnesses": [
+        H("c05_gate", mod="verif_lib::c05", timeout=(1200, 3600),
+          functions=["varlink::Call::reply_struct", "varlink::Call::set_continues", "varlink::Call::wants_more",
+                     "varlink::Call::is_oneway"],
+          symbolic="more/oneway/upgrade in {absent,false,true}; script of 0..3 ops over {set_continues(true), "
+                   "set_continues(false), reply, reply_error}",
+          bounds="all 27 flag combinations x all 4^3 scripts of length <= 3; unwind 12",
+          stubs=STUB_SER + STUB_FMT),
+    ],
+    "assumptions": [
+        "server half only: the client iterator (MethodCall::more / next / recv) reads through "
+        "BufReader<Box<dyn Read>> and is outside what CBMC reaches (DESIGN P7, P13)",
+        "writer never fails",
+    ],
+}
+
+CHECKS["C16"] = {
+    "design_ref": "3/C16",
+    "harnesses": [
+    ] + [
+        H(n, mod="server::verif_server::c16", tiers=t, timeout=(1500, 3600),
+          functions=["varlink::server::activation_listener"],
+          symbolic="LISTEN_FDS and LISTEN_PID: absent or present with symbolic characters out of [0-9+- x]; own pid = 77",
+          bounds="LISTEN_PID 2 characters, LISTEN_FDS 2 characters unless stated; LISTEN_FDNAMES " + d +
+                 " (constants of the instance); unwind 16",
+          stubs=["std::env::var -> the drawn environment", "std::process::id -> 77",
+                 "core::slice::memchr::memchr -> naive byte loop"])
+        for n, d, t in [("c16_activation_nonames", "absent", ("quick", "thorough")),
+                        ("c16_activation_names0", "= varlink", ("quick", "thorough")),
+                        ("c16_activation_names1", "= a:varlink", ("quick", "thorough")),
+                        ("c16_activation_names2", "= a:b", ("thorough",)),
+                        ("c16_activation_names5", "= a:b:varlink", ("thorough",)),
+                        ("c16_activation_fds1_nonames", "absent, LISTEN_FDS one character", ("quick", "thorough")),
+                        ("c16_activation_fds1_names1", "= a:varlink, LISTEN_FDS one character", ("thorough",)),
+                        ("c16_activation_fds0", "absent, LISTEN_FDS empty", ("thorough",))]
+    ],
+    "assumptions": [
+        "reduced claim: the address / activation decision logic in front of the system calls; equivalence of replies "
+        "across real transports (kernel, fork/exec) is outside solver reach",
+    ],
+}
+
+C03_STUBS = STUB_SER + STUB_FMT + [
+    "serde_json::from_value -> scripted deserializer driving the real Deserialize impl of GetInterfaceDescriptionArgs",
+    "<serde_json::Value as Clone>::clone -> shallow clone of scalar values",
+    "std::hash::RandomState::new -> fixed keys (the interface table is empty)",
+]
+
+
+def c03_h(name, fn, what, tiers=("quick", "thorough"), mod="verif_lib::c03", **kw):
+    return H(name, mod=mod, tiers=tiers, timeout=(1500, 3600), functions=[fn], symbolic=what, bounds=what + "; unwind 10",
+             stubs=C03_STUBS, loop_rules=[("=memcmp.0", 46), (r"tagser::key_eq", 21), (r"tagser::pack", 10),
+                                          (r"nde::string_of", 10)] + VALUE_CUTS, **kw)
+
+
+BUILTIN = "<varlink::VarlinkService as varlink::Interface>::call"
+CHECKS["C03"] = {
+    "design_ref": "3/C03",
+    "harnesses": [
+        c03_h("c03_builtin_getinfo", BUILTIN, "vendor, product, version, url: any strings of <= 3 printable bytes"),
+        c03_h("c03_builtin_unknown_method", BUILTIN, "method org.varlink.service.Nope"),
+        c03_h("c03_builtin_getdesc_noparams", BUILTIN, "GetInterfaceDescription without parameters"),
+        c03_h("c03_builtin_getdesc_nonobject", BUILTIN, "GetInterfaceDescription, parameters not an object", tiers=("thorough",)),
+        c03_h("c03_builtin_getdesc_emptyobj", BUILTIN, "GetInterfaceDescription, parameters {}", tiers=("thorough",)),
+        c03_h("c03_builtin_getdesc_unregistered", BUILTIN,
+              "GetInterfaceDescription, interface = any string of <= 3 printable bytes (none registered)"),
+        c03_h("c03_builtin_getdesc_service", BUILTIN, "GetInterfaceDescription of org.varlink.service"),
+        c03_h("c03_route_service", "varlink::VarlinkService::call", "interface org.varlink.service"),
+        c03_h("c03_route_unregistered", "varlink::VarlinkService::call", "interface a.b, empty table"),
+        c03_h("c03_route_prefix_of_service", "varlink::VarlinkService::call", "interface org.varlink (prefix of the built-in name)",
+              tiers=("thorough",)),
+        c03_h("c03_route_empty", "varlink::VarlinkService::call", "empty interface name", tiers=("thorough",)),
+    ] + [
+        handle_h(n, 1, w, t) for n, w, t in [
+            ("c03_split_leading_dot", "[method .M -> interface '']", ("quick", "thorough")),
+            ("c03_split_double_dot", "[method a..M -> interface 'a.']", ("quick", "thorough")),
+            ("c03_split_trailing_dot", "[method M. -> interface 'M']", ("thorough",)),
+            ("c03_split_service", "[method org.varlink.service.GetInfo -> interface org.varlink.service]", ("thorough",)),
+        ]
+    ],
+    "assumptions": [
+        "the interface table is empty in every harness: a populated HashMap with a symbolic or even concrete key costs "
+        "minutes per lookup in CBMC (hashbrown SIMD group probing; DESIGN P8 and probe_k), so 'a registered interface "
+        "is reached exactly' is covered only through the dispatch contract used by the C01 harnesses and natively by "
+        "the replayer",
+        "method and interface names are constants of each harness instance (enumerated shapes: leading / doubled / "
+        "trailing dot, prefix of the built-in name, empty)",
+    ],
+}
+for _h in CHECKS["C03"]["harnesses"]:
+    if _h["name"].startswith("c03_split"):
+        _h["loop_rules"] = [("=memcmp.0", 30), (r"memchr::memrchr", 30), (r"tagser::key_eq", 30), (r"tagser::pack", 10)] + VALUE_CUTS
+
+CHECKS["C12"] = {
+    "design_ref": "3/C12",
+    "harnesses": [
+        H("c12_error_position", mod="verif_parser::c12", package="varlink_parser", timeout=(1500, 3600),
+          functions=["<varlink_parser::IDL as TryFrom<&str>>::try_from (error mapping)", "peg::Parse::position_repr for str",
+                     "peg::error::ErrorState::into_parse_error"],
+          symbolic="text of 4 bytes over {'a', LF, CR, ' '}; byte offset 0..=4 at which the parser gives up",
+          bounds="4-byte texts, every offset; unwind 8",
+          stubs=["varlink_parser::varlink_grammar::ParseInterface (peg-generated) -> fails at the drawn offset, error built by "
+                 "peg's own ErrorState::into_parse_error", "std::hash::RandomState::new -> fixed keys",
+                 "alloc::fmt::format -> String::new()", "core::slice::memchr::memchr -> naive byte loop"]),
+    ],
+    "assumptions": [
+        "reduced claim: the diagnostic arithmetic (line lookup + column). Totality and termination of the peg grammar on "
+        "arbitrary Unicode input need ParseInterface on symbolic text, which CBMC does not finish even for 4 bytes "
+        "(DESIGN P9); rendering through Display is std's formatting machinery (outside)",
+        "texts are ASCII (multi-byte line separators U+2028/U+2029 are not line breaks for either side of the computation)",
+    ],
+}
+
+C11_STUBS = ["std::hash::RandomState::new -> fixed keys",
+             "<DefaultHasher as Hasher>::{write,write_str,finish} -> constant hash",
+             "alloc::fmt::format -> String::new() (so the error TEXT is not inspected)"]
+
+
+def c11_h(name, kinds, tiers):
+    return H(name, mod="verif_parser::c11", package="varlink_parser", tiers=tiers, timeout=(1500, 3600),
+             functions=["varlink_parser::IDL::from_token"],
+             symbolic="the name of each member, drawn from a pool of two",
+             bounds="member kinds %s (constants of the instance); unwind 6" % kinds, stubs=C11_STUBS)
+
+
+CHECKS["C11"] = {
+    "design_ref": "3/C11",
+    "harnesses": [
+        c11_h("c11_dup_mm", "[method, method]", ("quick", "thorough")),
+        c11_h("c11_dup_mt", "[method, type]", ("quick", "thorough")),
+        c11_h("c11_dup_me", "[method, error]", ("quick", "thorough")),
+        c11_h("c11_dup_tm", "[type, method]", ("thorough",)),
+        c11_h("c11_dup_tt", "[type, type]", ("quick", "thorough")),
+        c11_h("c11_dup_te", "[type, error]", ("quick", "thorough")),
+        c11_h("c11_dup_em", "[error, method]", ("thorough",)),
+        c11_h("c11_dup_et", "[error, type]", ("thorough",)),
+        c11_h("c11_dup_ee", "[error, error]", ("quick", "thorough")),
+        c11_h("c11_dup_mte", "[method, type, error]", ("thorough",)),
+        c11_h("c11_dup_etm", "[error, type, method]", ("thorough",)),
+    ],
+    "assumptions": [
+        "reduced claim: duplicate detection and order of appearance in IDL::from_token. Acceptance / rejection of whole "
+        "texts by the peg grammar (language equality, the interface-name rule) needs the parser on symbolic text and "
+        "is outside CBMC's reach (DESIGN P9); 'every duplicated name is named in the error' needs the formatted text",
+    ],
+}
+
+CHECKS["C02"] = {
+    "design_ref": "3/C02",
+    "harnesses": [
+        H("c02_cut%d" % c, mod="verif_lib::c01", tiers=t, timeout=(2400, 7200), functions=HANDLE_FUNCS,
+          symbolic="per message: number of replies the implementation writes (0..2)",
+          bounds="stream 'm' NUL 'm' NUL 't' fed whole vs. in two chunks cut at byte %d (%s), tail re-fed; unwind 12" % (c, d),
+          stubs=STUB_HANDLE, loop_rules=HANDLE_LOOPS, witness="search")
+        for c, d, t in [(0, "empty first chunk", ("thorough",)), (1, "inside the first message", ("quick", "thorough")),
+                        (2, "on the message boundary", ("quick", "thorough")), (3, "inside the second message", ("quick", "thorough")),
+                        (4, "after the last complete message", ("thorough",)), (5, "whole stream first", ("thorough",))]
+    ] + [
+        # the upgrade hand-over clause is decided by the C01 harnesses' P:c02.* assertions
+        handle_h("c01_k2_dd", 2, "[dispatched, dispatched] (upgrade hand-over clause)", ("quick", "thorough")),
+        handle_h("c01_k3_ddd", 3, "[dispatched x3] (upgrade hand-over clause)", ("thorough",)),
+    ],
+    "assumptions": CHECKS["C01"]["assumptions"] + [
+        "one cut point per harness instance, every structural position of the cut; k cuts follow by induction on the "
+        "single-cut lemma (stated, not checked)",
+        "messages larger than the internal buffer: BufReader capacity is 4 here and the 5-byte stream crosses it; the "
+        "real 8 KiB capacity is a constant of std",
+        "the listen() worker discards the tail handle() returns after an upgrade (server.rs: Ok((_, i))); listen() cannot "
+        "be compiled by Kani 0.68 (DESIGN P15), so that call site is outside the check",
     ],
 }
